@@ -30,6 +30,8 @@ def _strategy():
             if op == "read":
                 tx["signed"] = draw(st.booleans())
                 tx["raw"] = draw(st.booleans())
+                # the serving application answers this read from inside its notification callback (no application thread)
+                tx["inline"] = draw(st.sampled_from([False, False, True]))
             txs.append(tx)
         tx_pair = draw(st.sampled_from([[0.0, 0.0], [0.0, 0.0], [0.0015, 0.0], [0.003, 0.0], [0.0005, 0.0], [0.0, 0.0015], [0.0, 0.003]]))
         if tx_pair[1] > 0:
@@ -60,11 +62,12 @@ class C17:
     RULE = ("Hypothesis draws object size 1/2/4/8 and a byte length 1..255 (boundaries 1,6,7,8,9,255: single-frame DM16 up to 7 "
             "bytes, RTS/CTS above), a 32-bit pointer, direct/spatial addressing, seed/key off or on with 1-3 generated seeds "
             "(0..0xFFFF incl. both boundaries) and a generated bijective key algorithm, max_cmdt_packets per side, latencies in (0, 5 ms], optional "
-            "proceed callback, respond delay 0..20 ms, and 1..4 transactions back to back on the same objects (reads raw/converted, "
+            "proceed callback, respond delay 0..20 ms (one read in three answered inline from the notify callback), and 1..4 transactions back to back on the same objects (reads raw/converted, "
             "signed/unsigned; writes with values over the full unsigned range incl. all-ones/all-zero objects); non-trivial = "
             ">= 2 objects or >= 8 data bytes or >= 2 transactions; distinct = distinct parameter sets")
     ASSUMPTIONS = [
         "the serving application answers from an application thread after the notify callback (the pattern of the pinned tests) "
+        "or, for one read in three, from inside the notify callback itself, "
         "and supplies exactly object_count x object_size bytes",
         "seeds take any 16-bit value incl. 0x0000 and 0xFFFF (set through set_seed_generator)",
         "the caller's max_timeout is 3 s (long enough for 255 bytes at window 1 and 5 ms latency)",
@@ -112,7 +115,8 @@ class C17:
                 if t["op"] == "read":
                     data = D.mem_bytes(t["data_seed"], nbytes)
                     tx["signed"], tx["raw"] = t.get("signed", False), t.get("raw", False)
-                    plans.append({"proceed": True, "data": data, "tx": ti, "delay": p.get("respond_delay", 0.0)})
+                    plans.append({"proceed": True, "data": data, "tx": ti, "delay": p.get("respond_delay", 0.0),
+                                  "inline": bool(t.get("inline"))})
                     if tx["raw"]:
                         exp.append(("read", list(data)))
                     else:
